@@ -535,6 +535,11 @@ struct Scope {
         function_pointers; // 関数ポインタ変数
     std::string scope_id; // スコープの一意識別子（implメソッド用）
     std::shared_ptr<std::map<const ASTNode *, size_t>> statement_positions;
+    // true for the scope that holds the parameters of a function activation
+    // whose name is Interpreter::current_function_name (set once the
+    // parameters are bound).  Scopes above it on the stack are the blocks of
+    // that activation; scopes below it belong to its callers.
+    bool is_call_frame = false;
 
     void clear() {
         variables.clear();
@@ -542,6 +547,7 @@ struct Scope {
         function_pointers.clear();
         scope_id.clear();
         statement_positions.reset();
+        is_call_frame = false;
     }
 };
 
